@@ -128,9 +128,15 @@ func (res *Resource) unpackZipArchive() error {
 
 	// Save all files to the tmp dir.
 	for _, file := range archiveReader.File {
+		// Entry names are untrusted: they must stay within the unpack directory.
+		dstPath := filepath.Join(tmpDir, filepath.FromSlash(file.Name))
+		if !strings.HasPrefix(dstPath, tmpDir+string(filepath.Separator)) {
+			err = fmt.Errorf("archive entry %q is outside of the unpack directory", file.Name)
+			return err
+		}
 		err = copyFromZipArchive(
 			file,
-			filepath.Join(tmpDir, filepath.FromSlash(file.Name)),
+			dstPath,
 		)
 		if err != nil {
 			return fmt.Errorf("failed to extract archive file %s: %w", file.Name, err)
